@@ -62,6 +62,9 @@ func c14readonly(env *core.Env) {
 	g2 := reg.NewGen(c, m, cfg)
 	h := reg.NewHandles()
 	n := c.Range("nops", 10, 50)
+	if env.Tier == "thorough" && c.Bool("deep", 1, 3) {
+		n = c.Range("nops.deep", 50, 200)
+	}
 	env.Sample("read-only view over a registry with state %s", before)
 	for i := 0; i < n; i++ {
 		op := g2.Next()
@@ -245,6 +248,9 @@ func c14immutable(env *core.Env, wrapper bool) {
 	h := reg.NewHandles()
 	first := map[string]tagObs{}
 	n := c.Range("nops", 10, 50)
+	if env.Tier == "thorough" && c.Bool("deep", 1, 3) {
+		n = c.Range("nops.deep", 50, 200)
+	}
 	mode := "immutable-tags"
 	if wrapper {
 		mode = "immutable-wrapper"
@@ -338,10 +344,13 @@ func c14concurrent(env *core.Env) {
 	ctx := context.Background()
 	pools := mkPools(c)
 	mem := ocimem.NewWithConfig(&ocimem.Config{ImmutableTags: true})
-	ntasks := c.Range("ntasks", 2, 4)
+	ntasks, maxLen := c.Range("ntasks", 2, 4), 7
+	if env.Tier == "thorough" && c.Bool("deep", 1, 3) {
+		ntasks, maxLen = c.Range("ntasks.deep", 4, 12), 12
+	}
 	progs := make([][]*reg.Op, ntasks)
 	for t := range progs {
-		for i, n := 0, c.Range("proglen", 2, 7); i < n; i++ {
+		for i, n := 0, c.Range("proglen", 2, maxLen); i < n; i++ {
 			progs[t] = append(progs[t], pools.genOp(c, false, false))
 		}
 	}
@@ -413,10 +422,13 @@ func c14wrapperConcurrent(env *core.Env) {
 	pools := mkPools(c)
 	mem := ocimem.New()
 	r := ocifilter.Immutable(mem)
-	ntasks := c.Range("ntasks", 2, 4)
+	ntasks, maxLen := c.Range("ntasks", 2, 4), 7
+	if env.Tier == "thorough" && c.Bool("deep", 1, 3) {
+		ntasks, maxLen = c.Range("ntasks.deep", 4, 12), 12
+	}
 	progs := make([][]*reg.Op, ntasks)
 	for t := range progs {
-		for i, n := 0, c.Range("proglen", 2, 7); i < n; i++ {
+		for i, n := 0, c.Range("proglen", 2, maxLen); i < n; i++ {
 			progs[t] = append(progs[t], pools.genOp(c, false, false))
 		}
 	}
